@@ -34,7 +34,9 @@ def m1():
             'ls': {'memory': '2M', 'cpu': '2%', 'disk': '2M', 'affinity': 'e',
                    'lease': '1d', 'data_retention_timeout': '30s'},
         },
-        'blacklists': [[], ['p.sm']],
+        # patterns are fnmatch globs over proid.app: a literal proid, a glob
+        # in the proid part, no dot at all
+        'blacklists': [[], ['p.sm'], ['*.sm'], ['p*m']],
         'max_apps': 4,
         'events': [],
     }
